@@ -281,8 +281,9 @@ def cls_string_nonalnum(sel):
 
 
 def cls_underscore_names(sel):
-    """a name that contains two consecutive underscores or starts or ends with an underscore"""
-    return z3.Or(*[z3.Or(z3.Contains(n, S("__")), z3.PrefixOf(S("_"), n), z3.SuffixOf(S("_"), n)) for n in sel.names])
+    """a name that contains an underscore (found by the thorough tier: even single interior underscores collide with the
+    object join, e.g. {a: E, b_c: true} and {a: E_b, c: true} both give o_a__e_E_b_c__l_true_c)"""
+    return z3.Or(*[z3.Contains(n, S("_")) for n in sel.names])
 
 
 def cls_negative_int(sel):
@@ -548,7 +549,7 @@ PROBES_IN_KNOWN_CLASS = [PROBES[4], PROBES[8], PROBES[9]]      # strings with sa
 def main():
     t0 = time.time()
     T_ = tier()
-    B = {"args": 2, "namelen": 4, "strlen": 2, "objlen": 1} if T_ == "quick" else {"args": 2, "namelen": 5, "strlen": 3, "objlen": 2}
+    B = {"args": 2, "namelen": 4, "strlen": 2, "objlen": 1} if T_ == "quick" else {"args": 2, "namelen": 4, "strlen": 3, "objlen": 2}
     violations, known_lines, infra, queries, samples = [], [], [], [], []
     n_valid = 0
     kf = known_findings(PROP)
